@@ -16,7 +16,8 @@
 #define T_SEQ_SMALL(self) ((self)->m_next_outgoing_seq < ((uint64_t)1 << 40) && (self)->m_next_incoming_seq < ((uint64_t)1 << 40))
 /* at most one receive-side operation is outstanding (the public entry points abort the previous one first); the
  * null-buffers flag says which; wait-for-write is not implemented (m_send_null_buffers is never set) */
-#define T_RECV(self) (((self)->m_recv_null_buffers ? ((self)->m_wait_recv_handler != 0 && (self)->m_recv_handler == 0) : (self)->m_wait_recv_handler == 0) && (self)->m_send_null_buffers == 0 && (self)->m_wait_send_handler == 0)
+/* m_recv_null_buffers says which kind of read is PENDING; it is stale (keeps its last value) while none is */
+#define T_RECV(self) (((self)->m_wait_recv_handler != 0 ? ((self)->m_recv_null_buffers == 1 && (self)->m_recv_handler == 0) : 1) && ((self)->m_recv_handler != 0 ? (self)->m_recv_null_buffers == 0 : 1) && (self)->m_send_null_buffers == 0 && (self)->m_wait_send_handler == 0)
 #define INV_tcp(self) (T_RECV(self) && INV_tcp_noR(self))
 #define INV_tcp_noR(self) (T_BOOLS(self) && T_SLOTS(self) && T_NUM(self) && T_FLIGHT(self) && T_SEQ(self) && SMI_OK((self)->m_outstanding_packet_sizes) && SMP_OK((self)->m_reorder_buffer) && \
    INV_hrtimer(&(self)->m_connect_timer) && INV_hrtimer(&(self)->m_recv_timer) && EP_VALID((self)->m_bound_to))
